@@ -28,6 +28,7 @@ SOLVERS = {
     "RBiCGStab": "rbicgstab.hpp", "PMR": "pmr.hpp", "Chebyshev": "chebyshev.hpp", "PCGNRILU": "pcgnrilu.hpp",
 }
 STATUS_T = "FEAT::Solver::Status"
+_LAMBDAS = []          # every closure function of the parsed translation units (filled by run())
 STATUS_QN = "FEAT::Solver::Status::"
 ALL_STATUS = ("undefined", "progress", "success", "aborted", "diverged", "max_iter", "stagnated")
 UPD = ("_set_initial_defect", "_set_new_defect", "_update_defect", "_analyse_defect")
@@ -272,6 +273,7 @@ class StatusFlow:
         self.cv = callee_values
         self.helpers = helpers or {}     # own-class Status helpers: name -> set of (value, kind); kind = underlying update name | 'hlit'
         self.unmodelled_tests = []       # conditions on a Status local that the refinement does not understand
+        self.lambda_flows = {}           # name -> (Function, StatusFlow) of the Status-returning closures called here
         self.svars = {d for d, v in self.lo.var.items() if is_status_type(fn, v.get("t")) and not v.get("ref")}
         # by-value Status parameters (of a helper): tracked like locals, initial value the symbolic "$i" (bound at the call site)
         self.pvars = {p["d"]: i for i, p in enumerate(fn.params) if is_status_type(fn, p["t"]) and "&" not in (fn.type(p["t"]) or "")}
@@ -321,6 +323,30 @@ class StatusFlow:
                         out.add((v, ("hlit", e["i"], nm) if kind == "hlit" else ("upd", e["i"], kind)))
                 return out
             raise Unknown("Status produced by unmodelled call %s" % render(e)[:80])
+        if k == "OpCall" and e.get("op") == "()" and e.get("a"):
+            # a local closure (`const auto finish = [this](IterationStats&, Status st) -> Status {...; return st;}`): summarised like a
+            # Status helper - literal / defect-update results of its own, and parameters handed back are bound to the call's arguments
+            lam = [f for f in _LAMBDAS if f.d.get("decl") is not None and f.d.get("decl") == e.get("cdecl") and f.cfg is not None]
+            if lam and lam[0].d.get("ret") is not None and is_status_type(lam[0], lam[0].d["ret"]):
+                lname = "<lambda@%s>" % lam[0].line
+                if lname not in self.lambda_flows:
+                    self.lambda_flows[lname] = (lam[0], StatusFlow(lam[0], self.cv, self.helpers))
+                sub = self.lambda_flows[lname][1]
+                for pr in sub.problems:
+                    raise Unknown("closure called at line %s: %s" % (e.get("l"), pr))
+                out = set()
+                for rs in sub.returns.values():
+                    for v, org in rs:
+                        if org[0] == "param":
+                            if 1 + org[1] >= len(e["a"]):
+                                raise Unknown("Status parameter %d of the closure has no argument" % org[1])
+                            out |= self.ev(e["a"][1 + org[1]], state, sid, ctx)
+                        elif org[0] == "upd":
+                            out.add((v, ("upd", e["i"], org[2])))
+                        else:
+                            out.add((v, ("hlit", e["i"], lname)))
+                if sub.returns:
+                    return out
         if k == "Cond":
             ci = strip(e["c"]).get("i")
             return self.ev(e["then"], state, sid, tuple(ctx) + ((ci, True),)) | self.ev(e["else"], state, sid, tuple(ctx) + ((ci, False),))
@@ -787,6 +813,10 @@ def rule_status_protocol(ck, solvers, cv):
             sf = StatusFlow(fn, cv, summ)
             lo = sf.lo
             units = [("_apply_intern", fn, sf)] + [(n, cands[n], hflows[n]) for n in sorted(cands) if any(cname(c) == n for u in [fn] + list(cands.values()) for c in u.calls())]
+            for usf0 in [u[2] for u in units]:
+                for lname, (lfn, lsf) in sorted(usf0.lambda_flows.items()):
+                    if not any(u[0] == lname for u in units):
+                        units.append((lname, lfn, lsf))
             for un, ufn, usf in units:
                 for p in usf.problems:
                     ck.incomplete("E7.status-origin", "%s::%s [%s]: %s" % (sc, un, tag, p))
@@ -5385,13 +5415,10 @@ class FilterFlow:
         return st
 
 
-_LAMBDAS = []
-
-
 def rule_defect_filtered(ck, solvers, facts=None):
     import c07_dim
-    del _LAMBDAS[:]
-    _LAMBDAS.extend(f for f in (facts.functions if facts is not None else []) if "<lambda@" in f.qn)
+    if not _LAMBDAS:
+        _LAMBDAS.extend(f for f in (facts.functions if facts is not None else []) if "<lambda@" in f.qn)
     extra = base_written_fields(facts) if facts is not None else set()
     for sc in sorted(SOLVERS):
         members = solvers.get(sc, {})
@@ -5882,6 +5909,8 @@ def run(tier):
     for e in facts.errors_in_repo()[:5]:
         ck.incomplete("E7.status-origin", "front-end error inside the repository while instantiating the solvers: %s:%d %s" % (rel(e["file"]), e["line"], e["msg"]))
     solvers = find_solver_functions(facts)
+    del _LAMBDAS[:]
+    _LAMBDAS.extend(f for f in facts.functions if "<lambda@" in f.qn)
     if thorough:
         f2 = featlib.extract(featlib.repo_path(SOLVER_DIR + "basic_solver-test.cpp"), files=featlib.repo_path(SOLVER_DIR))
         ck.tu(f2)
